@@ -1001,6 +1001,13 @@ impl<'a> ReservedSession<'a> {
     pub fn complete(&mut self) {
         self.complete = true;
     }
+
+    /// Whether the session is still in the session table: it is gone when e.g. its fabric was
+    /// removed - and all sessions of the fabric with it - while the handshake was under way.
+    pub(crate) fn exists(&self) -> bool {
+        self.matter
+            .with_state(|state| state.sessions.get(self.id).is_some())
+    }
 }
 
 impl Drop for ReservedSession<'_> {
